@@ -189,7 +189,9 @@ func C13scan(p *load.Program, run *report.Run) {
 // C14seen: the parsers reach the seen-wires table only through its checked methods.
 func C14seen(p *load.Program, run *report.Run) {
 	run.Rule("checked-table-access", "outside the methods of circuit.Seen (which return an error for an index past the end), a Seen table is indexed only by the variable of a loop bounded by len() of, or ranging over, that table; no slice expression is applied to it")
+	run.Rule("single-assignment", "Seen.Set returns an error for an element that is already set, before it marks it: every wire of a parsed circuit is assigned once, by the inputs or by exactly one gate")
 	lints.CheckedTable(p, run, "circuit", "Seen")
+	run.Floor("checked-table-setters", 1)
 	run.Floor("checked-table-method-calls", 8)
 	run.Floor("checked-table-accesses", 2)
 }
